@@ -229,6 +229,13 @@ func (ev *Eval) ident(name string) Value {
 				return ev.fr.env[p]
 			}
 		}
+		for _, p := range ev.fr.fn.FreeVars {
+			if p.Name() == name {
+				if pv, ok := ev.fr.env[p].(*PtrV); ok {
+					return ev.x.load(ev.st, pv.Loc)
+				}
+			}
+		}
 	}
 	if c, ok := ev.x.prog.cs.Consts[name]; ok {
 		return ev.eval(c)
@@ -797,6 +804,30 @@ func (ev *Eval) callExpr(n *ast.CallExpr) Value {
 		case *IfaceV:
 			return &Prim{T: Lt(w.Data, ev.st.alloc)}
 		}
+	case "within":
+		// within(p, x): pointer p points to (a field of) the object x, or to an element of the slice x
+		pv, okp := ev.eval(n.Args[0]).(*PtrV)
+		if !okp || pv.Loc == nil {
+			ev.fail("within(p, x): p is not a pointer")
+		}
+		var base Term
+		if pv.Loc.Kind == LObj || pv.Loc.Kind == LElem {
+			base = pv.Loc.Ref
+		} else {
+			base = x.refOf(ev.st, pv.Loc)
+		}
+		switch w := ev.eval(n.Args[1]).(type) {
+		case *SliceV:
+			return &Prim{T: And(BoolLit(pv.Loc.Kind == LElem), Eq(base, w.Ptr))}
+		case *PtrV:
+			if w.Loc == nil {
+				return &Prim{T: TFalse}
+			}
+			return &Prim{T: And(BoolLit(pv.Loc.Kind != LElem), Eq(base, x.refOf(ev.st, w.Loc)))}
+		case *IfaceV:
+			return &Prim{T: And(BoolLit(pv.Loc.Kind != LElem), Eq(base, w.Data))}
+		}
+		ev.fail("within(p, x): unsupported container")
 	case "preexisting":
 		// preexisting(x): x existed when the function under verification was entered
 		fc := x.curFunc
@@ -804,6 +835,10 @@ func (ev *Eval) callExpr(n *ast.CallExpr) Value {
 		case *SliceV:
 			return &Prim{T: Lt(w.Ptr, fc.alloc0)}
 		case *PtrV:
+			if w.Loc != nil && (len(w.Loc.Path) > 0 || w.Loc.Kind == LElem) && (w.Loc.Kind == LObj || w.Loc.Kind == LElem) {
+				// pointer into an object / array: the object existed
+				return &Prim{T: Lt(w.Loc.Ref, fc.alloc0)}
+			}
 			return &Prim{T: Lt(x.refOf(ev.st, w.Loc), fc.alloc0)}
 		case *IfaceV:
 			return &Prim{T: Lt(w.Data, fc.alloc0)}
@@ -986,6 +1021,9 @@ func (ev *Eval) methodCall(sel *ast.SelectorExpr, argExprs []ast.Expr) (Value, b
 		if w.Loc != nil {
 			rt = types.NewPointer(w.Loc.Typ)
 		}
+	case *SliceV:
+		// a named slice type (labels.Labels): found by element type and method name
+		rt = ev.x.prog.namedSliceWithMethod(w.Elem, sel.Sel.Name)
 	case *IfaceV:
 		if w.Typ != nil && types.IsInterface(w.Typ) {
 			// interface method: pure interface contract
@@ -1035,4 +1073,26 @@ func (ev *Eval) methodCall(sel *ast.SelectorExpr, argExprs []ast.Expr) (Value, b
 		ev.fail("method %s: exactly one result expected", key)
 	}
 	return res[0], true
+}
+
+// namedSliceWithMethod finds the named slice type with the given element type that has the method.
+func (p *Program) namedSliceWithMethod(elem types.Type, method string) types.Type {
+	for _, sp := range p.prog.AllPackages() {
+		for _, m := range sp.Members {
+			t, ok := m.(*ssa.Type)
+			if !ok {
+				continue
+			}
+			sl, ok := t.Type().Underlying().(*types.Slice)
+			if !ok || !types.Identical(sl.Elem(), elem) {
+				continue
+			}
+			if obj, _, _ := types.LookupFieldOrMethod(t.Type(), true, nil, method); obj != nil {
+				if _, isF := obj.(*types.Func); isF {
+					return t.Type()
+				}
+			}
+		}
+	}
+	return nil
 }
